@@ -194,6 +194,17 @@ func (m *UnboundedSegmentedMailbox) Dequeue() *ReceiveContext {
 			return nil
 		}
 		// recycle old head
+		// Producers link a successor only once this segment is full. If the
+		// indices above were sampled before the segment filled up, the slots
+		// written since then must still be consumed: re-read them instead of
+		// skipping (and recycling) a segment that holds undelivered messages.
+		if seg.deqIdx.Load() < min(seg.writeIdx.Load(), segmentSize) {
+			continue
+		}
+		// Never recycle a segment the tail still points at: a producer that
+		// linked the successor may not have swung the tail yet, and later
+		// producers would otherwise append to the recycled segment.
+		m.tail.CompareAndSwap(seg, next)
 		m.head.Store(next)
 		seg.next.Store(nil)
 		segmentPool.Put(seg)
